@@ -380,7 +380,13 @@ def run(ctx, replay=None):
         "sliding-window/cumsum/take/creation ops/concatenate=True blockwise/persist, sources with zero-width chunks, "
         "in-place x[...] = v after keys and graph were touched, depth 2-6, 1-3 roots per program sharing subtrees, plus a zoo of 19 further "
         "constructions applied to a root) x array.optimize-graph in {True, False}; every collection and its "
-        "optimize()/persist() derivatives; a case is distinct by (optimize flag, set of materialized layer classes)"
+        "optimize()/persist() derivatives; a case is distinct by (optimize flag, set of materialized layer classes). "
+        "Configuration-drift stream: aligned multi-operand nodes (elementwise / where / blockwise / stack / concatenate / "
+        "tensordot over nested, interleaved, equal and broadcasting operand chunkings, chunks='auto' sources, rechunk('auto'), "
+        "config-driven tree reductions) built under setting A, metadata (.chunks/.numblocks/keys/.name/graph/compute) read or not, "
+        "graph taken under setting B = one lazily read planner option changed (options enumerated from the source: every "
+        "config.get reachable from chunks/_lower/_simplify/_layer; all ordered value pairs of the two unify options on fresh "
+        "nested chunkings in every run) x optimize-graph on/off at graph build; distinct by (option, flavour, optimize flag, reads)"
     )
     ctx.assumptions = [
         "the layer contract is MONITORED (every real layer of every generated program), not proved for each layer class; "
@@ -396,6 +402,12 @@ def run(ctx, replay=None):
     ]
     if replay is not None:
         case = replay["case"] if "case" in replay else replay
+        if case.get("kind") == "drift":  # configuration-drift stream (harness/props_ext/c04_drift.py)
+            from harness.props_ext import c04_drift
+
+            for sig, detail in c04_drift.run_c04(ctx, case) or []:
+                ctx.fail(sig, case, detail)
+            return
         fails = run_case(ctx, case) or []
         for sig, detail in fails:
             ctx.fail(sig, case, detail)
@@ -437,6 +449,11 @@ def run(ctx, replay=None):
                 ctx.sample({"roots": roots, "optimize": opt, "ops": [st["op"] for st in prog]})
             if fails:
                 report(ctx, case, fails)
+    # ---- configuration drift: every lazily read planner option changed between construction / first metadata
+    # read and graph build, optimize-graph on and off at graph build (harness/props_ext/c04_drift.py)
+    from harness.props_ext import c04_drift
+
+    c04_drift.run_c04_stream(ctx)
     known_probe(ctx)
     ctx.notes.update(STATS)
     if ctx.disagreements:
